@@ -3,7 +3,7 @@ import TenpyModel.C01.B2_Comb6
 C01 part B2 — part 7: the result of `combineStd` is well-formed (`Arr.WF`): legs of the right shape, rows in range,
 blocks of the shape of their row, truthful `_qdata_sorted` claim.
 -/
-namespace TenpyModel.C01B2
+namespace TenpyModel.C01B2.Comb
 open TenpyModel.Core TenpyModel.C01B
 
 variable {α : Type}
@@ -155,4 +155,4 @@ theorem combine_WF (a r : Arr α) (ha : a.WF) (cl : List (List Nat)) (newAxes : 
       exact hsort
 
 end zero
-end TenpyModel.C01B2
+end TenpyModel.C01B2.Comb
